@@ -106,3 +106,37 @@ func compact(in []Input) []Input {
 	}
 	return out
 }
+
+// BlockAddrModule renders a module of nf functions, each of which takes the address of nb blocks of the
+// next function (and of its own), plus one global initialiser and one metadata node per function that do
+// the same: every blockaddress constant joins the translator's fix-up list, from global initialisers,
+// function bodies and metadata nodes alike.
+func BlockAddrModule(nf, nb int) string {
+	var sb strings.Builder
+	for i := 0; i < nf; i++ {
+		fmt.Fprintf(&sb, "@t%d = global [%d x i8*] [", i, nb)
+		for b := 0; b < nb; b++ {
+			if b > 0 {
+				sb.WriteString(", ")
+			}
+			fmt.Fprintf(&sb, "i8* blockaddress(@f%d, %%b%d)", (i+1)%nf, b)
+		}
+		sb.WriteString("]\n")
+	}
+	for i := 0; i < nf; i++ {
+		fmt.Fprintf(&sb, "define i32 @f%d(i32 %%p) !foo !%d {\nentry:\n  br label %%b0\n", i, i)
+		for b := 0; b < nb; b++ {
+			fmt.Fprintf(&sb, "b%d:\n  %%x%d = ptrtoint i8* blockaddress(@f%d, %%b%d) to i32\n  %%y%d = ptrtoint i8* blockaddress(@f%d, %%b%d) to i32\n", b, b, (i+1)%nf, (b+1)%nb, b, i, b)
+			if b+1 < nb {
+				fmt.Fprintf(&sb, "  br label %%b%d\n", b+1)
+			} else {
+				fmt.Fprintf(&sb, "  ret i32 %%x%d\n", b)
+			}
+		}
+		sb.WriteString("}\n")
+	}
+	for i := 0; i < nf; i++ {
+		fmt.Fprintf(&sb, "!%d = !{i8* blockaddress(@f%d, %%b%d), i8* blockaddress(@f%d, %%b0)}\n", i, (i+2)%nf, i%nb, i)
+	}
+	return sb.String()
+}
